@@ -946,11 +946,11 @@ class Engine:
                     store, states = self._process_state(path)
                     process_timestep = process.calculate_timestep(states)
 
-                    if force_complete:
+                    future = process_time + process_timestep
+                    if force_complete and future > end_time:
                         # force the process to complete at end_time
-                        future = min(process_time + process_timestep, end_time)
-                    else:
-                        future = process_time + process_timestep
+                        future = end_time
+                        process_timestep = end_time - process_time
                     if self.global_time_precision is not None:
                         # set future time based on global_time_precision
                         future = round(future, self.global_time_precision)
